@@ -252,7 +252,8 @@ Definition sync_yield (d : dealer) (callee req : N) (opts : dict) (args : list v
       let d1 := if progress then d
                 else let dd := cancel_timer d (inv_timer inv) in
                      d_set_invs dd (cset (d_invs dd) ikey (inv_set_timer inv None)) in
-      let finish (dd : dealer) := if progress || inv_inprogress inv then dd else drop_call dd cid ikey in
+      (* a final YIELD ends the call, also while the caller is still sending chunks *)
+      let finish (dd : dealer) := if progress then dd else drop_call dd cid ikey in
       match cget (d_calls d1) cid with
       | None => (finish d1, [])
       | Some caller =>
